@@ -1353,8 +1353,83 @@ func runC16(c *Ctx) {
 
 // ---- C17 ----
 
+// c17FreshSharedCache: many short rounds; in each, goroutines released together make their FIRST calls on one fresh
+// cache of the package's own type, without a root and without a location (the calls that install the pseudo root),
+// following absolute references: no call hangs, each returns what it returns alone, the cache is usable afterwards.
+func c17FreshSharedCache(c *Ctx) {
+	docs := map[string]string{
+		"http://h.example/a.json": `{"definitions":{"x":{"type":"object","properties":{"y":{"$ref":"http://h.example/b.json#/definitions/y"}}}}}`,
+		"http://h.example/b.json": `{"definitions":{"y":{"type":"string","description":"leaf"}}}`,
+	}
+	loader := func(u string) (json.RawMessage, error) {
+		if d, ok := docs[u]; ok {
+			return json.RawMessage(d), nil
+		}
+		return nil, fmt.Errorf("no such document %s", u)
+	}
+	expand := func(cache spec.ResolutionCache) string {
+		s := spec.RefSchema("http://h.example/a.json#/definitions/x")
+		if err := spec.ExpandSchemaWithBasePath(s, cache, &spec.ExpandOptions{PathLoader: loader}); err != nil {
+			return "error: " + err.Error()
+		}
+		b, _ := json.Marshal(s)
+		return string(b)
+	}
+	alone := expand(nil)
+	defer runtime.GOMAXPROCS(runtime.GOMAXPROCS(0))
+	rounds := c.N(1500, 20000)
+	for r := 0; r < rounds; r++ {
+		runtime.GOMAXPROCS([]int{2, 4, 8, 16}[r%4])
+		n := []int{2, 4, 8}[r%3]
+		cache := spec.VerifDefaultCache()
+		outs := make([]string, n)
+		var ready, wg sync.WaitGroup
+		start := make(chan struct{})
+		ready.Add(n)
+		for i := 0; i < n; i++ {
+			wg.Add(1)
+			go func(i int) {
+				defer wg.Done()
+				ready.Done()
+				<-start
+				outs[i] = expand(cache)
+			}(i)
+		}
+		ready.Wait()
+		close(start)
+		done := make(chan struct{})
+		go func() { wg.Wait(); close(done) }()
+		cs := map[string]interface{}{"scenario": "first calls on one fresh default-type cache, no root, no location", "goroutines": n, "round": r}
+		select {
+		case <-done:
+		case <-time.After(20 * time.Second):
+			c.Fail(Failure{Kind: "crash", Sig: "C17:deadlock", What: fmt.Sprintf("round %d: %d goroutines sharing one fresh cache did not all return within 20 s", r, n), Case: cs})
+			return // the stuck goroutines cannot be stopped; the later scenarios would only inherit them
+		}
+		for _, o := range outs {
+			if o != alone {
+				c.Fail(Failure{Kind: "oracle", Sig: "C17:concurrent-result-differs", What: "a call sharing a fresh cache with concurrent first calls differs from its result alone: " + clip(o), Case: cs})
+				break
+			}
+		}
+		// the cache is still usable
+		okc := make(chan struct{})
+		go func() { cache.Set("probe", 1); _, _ = cache.Get("probe"); close(okc) }()
+		select {
+		case <-okc:
+		case <-time.After(10 * time.Second):
+			c.Fail(Failure{Kind: "crash", Sig: "C17:deadlock", What: fmt.Sprintf("round %d: the shared cache no longer answers after the calls have returned (a lock was left held)", r), Case: cs})
+			return
+		}
+	}
+	c.Count("fresh-shared-cache-rounds", true)
+	c.Hit("scenario:fresh-shared-cache")
+	c.Res.Dist["fresh-shared-cache-rounds"] = rounds
+}
+
 func runC17(c *Ctx) {
 	c.Res.Rule = "N in {2,4,8,16} goroutines under GOMAXPROCS in {1,2,4,16}, binary built with -race: (A) concurrent ExpandSpec of distinct worlds without a cache, (B) concurrent ExpandSchemaWithBasePath of the definitions of one world sharing one instrumented cache, (C) concurrent json.Marshal and JSON-pointer lookups on one shared decoded document; oracle: every call returns what it returns alone (by meaning for cyclic graphs), no deadlock (watchdog), no race report; the global trace of (B) is checked by the model's multi-thread validator and replayed through the model's scheduler under the observed schedule; non-trivial = scenario with at least two goroutines touching a common document; distinct by scenario text"
+	c17FreshSharedCache(c)
 	rounds := c.N(10, 120)
 	procs := []int{1, 2, 4, 16}
 	ns := []int{2, 4, 8, 16}
